@@ -19,9 +19,7 @@ import os
 import re
 import common as C
 
-CLS = [None, "quoted_space", "quoted_escape", "retired_like_wildcard", "retired_like_case", "rename_into_child",
-       "rename_leading_slash", "rename_partial", "inbox_rename_orphan", "protected_case",
-       "inbox_twin", "roles_shadow", "lsub_persists", "lsub_adds_inbox"]
+CLS = [None, "quoted_space", "quoted_escape"] + ["retired_%d" % k for k in range(3, 16)]
 
 KINDS = {"CREATE": "CCreate", "DELETE": "CDelete", "RENAME": "CRename", "SUBSCRIBE": "CSubscribe",
          "UNSUBSCRIBE": "CUnsubscribe", "LIST": "CList", "LSUB": "CLsub", "STATUS": "CStatus",
